@@ -57,8 +57,10 @@ def main(tier, seed, replay=None):
     big = tier == "thorough"
     # ---- Tie B for the order theorem: the evaluator model against the real code with the shapes handed over in shuffled order
     mcases = []
-    for _ in range(400 if big else 60):
-        c = EC.base_case(rng)
+    set_tmpls = [lambda r_, n_, l_: S.tmpl_qualified(r_, n_, l_, easy=True, n_pool=3), S.tmpl_qualified, S.tmpl_shared]
+    for k_ in range(400 if big else 60):
+        # every third case: components that iterate over a set of shapes (the model takes 'any' / 'all' over the set)
+        c = EC.base_case(rng, p_focused=1.0, tmpls=set_tmpls) if k_ % 3 == 0 else EC.base_case(rng)
         rng.shuffle(c["shapes"])
         c["opts"] = {}
         mcases.append(c)
@@ -67,16 +69,21 @@ def main(tier, seed, replay=None):
     else:
         failed, raw, errors = [], [], ["coq build broken"]
     # ---- the property: separate processes, different hash seeds, permuted / relabelled / re-prefixed inputs
-    n = 300 if big else 40
+    n = 300 if big else 50
     nvar = 6 if big else 4
     d = tempfile.mkdtemp(prefix="c09_", dir="/var/tmp")
     jobs, cases = [], []
     try:
         for j in range(n):
             r = rng.random()
-            if r < 0.3:
+            if r < 0.12:
                 c = EC.base_case(rng)
                 opts, api, fam = rng.choice([{}, {}, {"abort_on_first": False, "allow_warnings": True}]), "validate", "nested shapes"
+            elif r < 0.3:
+                # components that iterate over a SET of shapes (qualified siblings, shared references): a last-wins or
+                # first-wins slip there shows only when the set is enumerated in another order
+                c = EC.base_case(rng, p_focused=1.0, tmpls=[lambda r_, n_, l_: S.tmpl_qualified(r_, n_, l_, easy=True, n_pool=3), lambda r_, n_, l_: S.tmpl_qualified(r_, n_, l_, easy=True, n_pool=3), S.tmpl_qualified, S.tmpl_shared])
+                opts, api, fam = {}, "validate", "shape sets (qualified siblings, shared references)"
             elif r < 0.5:
                 c = LV.gen_case(rng)
                 c["sg"] = S.shapes_to_rdf(c["shapes"])
